@@ -183,6 +183,8 @@ func (c *caseT) knownCrash(rec *ev.Rec, prop string, err *engineErr, strat strin
 	case err.Error() == "ASSERT FAILED" && strings.Contains(err.stack, "query.selEnd") &&
 		strings.Contains(err.stack, "Union).Select") && c.usesEmptyKeyTable():
 		key = "union-select-emptykey-source"
+	case err.Error() == "cannot do math on String literal" && strat == "" && strings.Contains(err.stack, "query.replaceExpr"):
+		key = "transform-folds-empty-literal-math"
 	case (strings.HasPrefix(err.Error(), "Sels.Get can't find") || err.Error() == "ASSERT FAILED" || err.Error() == "selOrg not full") &&
 		c.extraSels && joinLookupSelectRe.MatchString(err.stack):
 		key = "join-lookup-fallback-extra-sels"
@@ -242,6 +244,10 @@ func emptyRangeTerm(e *exprT) bool {
 		return contains(ops, x.op) && len(x.args) == 2 && x.args[0].op == "col" && x.args[1].op == "const"
 	}
 	if isCmp(e, "<") && e.args[1].lit.packed == "" {
+		return true
+	}
+	// the folder rewrites not (col >= "") to col < ""
+	if e.op == "not" && isCmp(e.args[0], ">=") && e.args[0].args[1].lit.packed == "" {
 		return true
 	}
 	if e.op != "and" {
